@@ -375,7 +375,8 @@ Definition ana_prog (p : prog) (a : astate) : option (list astate) :=
   end.
 
 (* pointer members that are NULL whenever the instance is idle: the list of saved markers, and the
-   "dummy marker-reader methods installed" mark of tj3DecodeYUVPlanes8 *)
-Definition idle_nulls : list fld := [(OD, "marker_list"%string); (OD, "marker->dummy_methods"%string)].
+   "dummy marker-reader methods installed" / "dummy start_input_pass installed" marks of tj3DecodeYUVPlanes8 *)
+Definition idle_nulls : list fld :=
+  [(OD, "marker_list"%string); (OD, "marker->dummy_methods"%string); (OD, "inputctl->dummy_start_input_pass"%string)].
 Definition at_start (a : astate) : bool :=
   Z.eqb (a_c a) CSTART && Z.eqb (a_d a) DSTART && forallb (fun p => memf p (a_n a)) idle_nulls.
